@@ -187,3 +187,16 @@ package storage
 //@ func NewTKey
 //@   prop C05 C06
 //@   ensures fresh(result) && len(result) == 2 + len(tkey) && result[0] == uint8(class) && rangeeq(result, 2, tkey, 0, len(tkey))
+
+// ---- goroutine/parent races on captured variables (C11), structural contracts ----
+// Each function below starts goroutines; the only obligation generated for it is that no local variable
+// written by a goroutine it starts is accessed by the function afterwards (#gorace...). The bodies are not
+// executed symbolically.
+//@ func KafkaConfig.Initialize
+//@   prop C11
+//@   structural
+
+//@ func LogActivityToKafka
+//@   prop C11
+//@   structural
+
